@@ -80,6 +80,7 @@ fn main() {
         "vfy" => vmodel::run(&mut rng, &mut out, n),
         "vfy4" => vmodel::run_c04(&mut rng, &mut out, n),
         "vfy3" => vmodel::run_c03(&mut rng, &mut out, n),
+        "vfyx" => vmodel::run_x(&mut rng, &mut out, n),
         _ => {
             eprintln!("unknown family {fam}");
             std::process::exit(2);
